@@ -151,6 +151,89 @@ example : ∃ st, runItems id init (flatten [.field (.refnum 1), .music [.note .
     simp only [Bool.and_eq_true, decide_eq_true_eq, Bool.not_eq_eq_eq_not, Bool.not_true] at hb
     exact ⟨st, rfl, hb.1.1, hb.1.2, hb.2⟩
 
+/-! ## a double bar at a time where a section boundary already exists -/
+
+/-- A BAR TOKEN WITHOUT COLONS (plain bar, or a double bar `||`, `|]`, `[|` … of any length) that arrives while the
+most recent section annotation is AT the current time — directly after `:|`, after another double bar,
+nothing played since — changes nothing but the bar-scoped accidentals: no section annotation, NO
+SECTION GROUP (the section before it is not played again), same expected count.  Any state, any
+rounding (no float operation is involved). -/
+theorem abc_double_bar_at_boundary (st : St) (secs : List (Rat × Int)) (sid : Int) (len : Nat)
+    (hs : st.sections = secs ++ [(st.time, sid)]) :
+    stepBar st 0 len 0 = .ok { st with barAcc := [] } := by
+  have hne : st.sections ≠ [] := by rw [hs]; simp
+  have hl : st.sections.getLast? = some (st.time, sid) := by rw [hs]; simp
+  unfold stepBar
+  simp only [and_self, ↓reduceIte]
+  split
+  · unfold addSection
+    simp [hne, hl]
+  · rfl
+
+/-- … and where NO boundary exists yet (the most recent section annotation `a` is at another time), outside a
+repeat and after time 0, a double bar starts a section (next id) and appends the group that plays the
+section before it once. -/
+theorem abc_double_bar_new_section (st : St) (secs : List (Rat × Int)) (a : Rat × Int) (len : Nat)
+    (hs : st.sections = secs ++ [a]) (ha : a.1 ≠ st.time) (hlen : 2 ≤ len) (he : truthy st.expected = false)
+    (ht : 0 < st.time) :
+    stepBar st 0 len 0 = .ok { st with barAcc := [], sections := st.sections ++ [(st.time, a.2 + 1)],
+                                       groups := st.groups ++ [(a.2, 1)] } := by
+  have hne : st.sections ≠ [] := by rw [hs]; simp
+  have hl : st.sections.getLast? = some a := by rw [hs]; simp
+  unfold stepBar
+  simp only [and_self, ↓reduceIte, hlen, he, ht, Bool.false_eq_true, not_false_eq_true]
+  unfold addSection
+  simp only [hne, false_and, ↓reduceIte, hl, ha, Option.isSome_some]
+  rw [addGroup_two { st with barAcc := [], sections := st.sections ++ [(st.time, a.2 + 1)] } secs a (st.time, a.2 + 1) 1
+    (by simp [hs])]
+
+/-- `|: C D :| || E F |]` (seeded change C04-10) — the double bar after `:|` adds nothing: sections at 0 and 1/2,
+groups (0 × 2), (1 × 1); the expansion is C D C D E F -/
+abbrev doubleBarAtBoundaryExample : List Line :=
+  [.field (.refnum 1), .music [.bar 0 1 1, .note .none 'C' [] ⟨none, 0, none⟩, .note .none 'D' [] ⟨none, 0, none⟩,
+    .bar 1 1 0, .bar 0 2 0, .note .none 'E' [] ⟨none, 0, none⟩, .note .none 'F' [] ⟨none, 0, none⟩, .bar 0 2 0]]
+
+example : (parseTune id doubleBarAtBoundaryExample).map (fun t => (t.sections, t.groups)) =
+    .ok ([(0, 0), (1/2, 1)], [(0, 2), (1, 1)]) := by decide +kernel
+
+example : ∃ tune L, parseTune id doubleBarAtBoundaryExample = .ok tune ∧ expand id tune = .ok L ∧
+    L.map (·.pitch) = [60, 62, 60, 62, 64, 65] := by
+  have hb : (match parseTune id doubleBarAtBoundaryExample with
+      | .ok t => decide (t.notes.Pairwise (fun a b => a.start ≤ b.start)) &&
+          (match expandSorted id t with
+           | .ok L => decide (L.map (·.pitch) = [60, 62, 60, 62, 64, 65])
+           | .error _ => false)
+      | .error _ => false) = true := by decide +kernel
+  cases hp : parseTune id doubleBarAtBoundaryExample with
+  | error e => rw [hp] at hb; simp at hb
+  | ok tune =>
+    rw [hp] at hb
+    simp only [Bool.and_eq_true, decide_eq_true_eq] at hb
+    obtain ⟨h2, h3⟩ := hb
+    rw [← expand_of_sorted id tune h2] at h3
+    cases hx : expand id tune with
+    | error e => rw [hx] at h3; simp at h3
+    | ok L =>
+      rw [hx] at h3
+      simp only [decide_eq_true_eq] at h3
+      exact ⟨tune, L, rfl, hx, h3⟩
+
+/-- the hypothesis of `abc_double_bar_at_boundary` is met by the state after `|: C D :|` -/
+example : ∃ st, runItems id init (flatten [.field (.refnum 1), .music [.bar 0 1 1, .note .none 'C' [] ⟨none, 0, none⟩,
+      .note .none 'D' [] ⟨none, 0, none⟩, .bar 1 1 0]]) = .ok st ∧
+    st.sections = [(0, 0)] ++ [(st.time, 1)] ∧ st.groups = [(0, 2)] := by
+  have hb : (match runItems id init (flatten [.field (.refnum 1), .music [.bar 0 1 1, .note .none 'C' [] ⟨none, 0, none⟩,
+      .note .none 'D' [] ⟨none, 0, none⟩, .bar 1 1 0]]) with
+    | .ok st => decide (st.sections = [(0, 0)] ++ [(st.time, 1)]) && decide (st.groups = [(0, 2)])
+    | .error _ => false) = true := by decide +kernel
+  cases hp : runItems id init (flatten [.field (.refnum 1), .music [.bar 0 1 1, .note .none 'C' [] ⟨none, 0, none⟩,
+      .note .none 'D' [] ⟨none, 0, none⟩, .bar 1 1 0]]) with
+  | error e => rw [hp] at hb; simp at hb
+  | ok st =>
+    rw [hp] at hb
+    simp only [Bool.and_eq_true, decide_eq_true_eq] at hb
+    exact ⟨st, rfl, hb.1, hb.2⟩
+
 /-! ## the obstacle: a broken-rhythm pair across a section boundary -/
 
 /-- `C < |: D :|` — the pair straddles the repeat sign -/
